@@ -46,8 +46,13 @@ def shortrepr(value):
     """shortened repr for error messages
 
     avoid lengthy error message in case a value is too complex
+
+    must never raise: it is called while building the message of a bad value error
     """
-    r = repr(value)
+    try:
+        r = repr(value)
+    except Exception:  # e.g. an int with more digits than sys.get_int_max_str_digits(), a too deeply nested value
+        return f'<{type(value).__name__} object>'
     if len(r) > 40:
         return r[:40] + '...'
     return r
